@@ -32,7 +32,7 @@ try:
         if rc_all != 0:
             res["failures"] = [l for l in out_all.splitlines() if l.startswith("FAIL") or l.startswith("--- FAIL")][:10]
         run("git checkout go.sum 2>/dev/null; rm -rf test/seeded test/seeded_*", r)
-        rc_d, diff = run("git diff -- . ':(exclude)go.sum' ':(exclude)go.mod'", r)
+        rc_d, diff = run("git add -N . && git diff -- . ':(exclude)go.sum' ':(exclude)go.mod'", r)
         if os.environ.get("SKIP_CHECKER"):
             p = subprocess.CompletedProcess("", 0, "", "")
         else:
